@@ -276,6 +276,37 @@ func registerStubs(ex *Exec) {
 	} {
 		S[n] = stubNop
 	}
+	// flag "locks" (sequential runs): a mutex remembers whether it is held; locking a mutex the only goroutine
+	// already holds can never succeed (reported, path ends); TryLock answers from the recorded state
+	S["flag:locks:(*sync.Mutex).Lock"] = func(ex *Exec, st *State, site ssa.Instruction, fn *ssa.Function, args []Value) Value {
+		held := smt.Not(smt.Eq(ex.syncRead(st, args[0], "mutex"), bv64(0)))
+		if !held.IsFalse() {
+			ex.outcome("panic", "deadlock: Lock of a mutex the same goroutine already holds (an earlier path left it locked)", site, smt.And(st.pc, held))
+			st.assume(smt.Not(held))
+			if st.dead {
+				return nil
+			}
+		}
+		ex.syncWrite(st, args[0], "mutex", func(*smt.Term) *smt.Term { return bv64(1) })
+		return nil
+	}
+	S["flag:locks:(*sync.Mutex).Unlock"] = func(ex *Exec, st *State, site ssa.Instruction, fn *ssa.Function, args []Value) Value {
+		free := smt.Eq(ex.syncRead(st, args[0], "mutex"), bv64(0))
+		if !free.IsFalse() {
+			ex.outcome("panic", "fatal error: sync: unlock of unlocked mutex", site, smt.And(st.pc, free))
+			st.assume(smt.Not(free))
+			if st.dead {
+				return nil
+			}
+		}
+		ex.syncWrite(st, args[0], "mutex", func(*smt.Term) *smt.Term { return bv64(0) })
+		return nil
+	}
+	S["flag:locks:(*sync.Mutex).TryLock"] = func(ex *Exec, st *State, site ssa.Instruction, fn *ssa.Function, args []Value) Value {
+		free := smt.Eq(ex.syncRead(st, args[0], "mutex"), bv64(0))
+		ex.syncWrite(st, args[0], "mutex", func(*smt.Term) *smt.Term { return bv64(1) })
+		return free
+	}
 	S["github.com/gethiox/HIDI/internal/pkg/logger.GetLogger"] = stubZero
 	S["(*github.com/gethiox/HIDI/internal/pkg/midi/device.Device).logFields"] = stubZero
 	// contexts carry a real channel that cancel() closes
@@ -426,9 +457,38 @@ func registerStubs(ex *Exec) {
 		})
 		return Nil
 	}
-	S["time.Now"] = stubZero
-	S["(time.Time).Add"] = stubZero
+	// flag "clock": the clock is an arbitrary non-decreasing sequence of instants (kept in Time.ext); without the
+	// flag every instant is the zero Time and deadlines never expire
+	S["time.Now"] = func(ex *Exec, st *State, site ssa.Instruction, fn *ssa.Function, args []Value) Value {
+		z := ex.zeroResult(fn)
+		if !ex.Flags["clock"] {
+			return z
+		}
+		t := ex.freshBV("clock", 64)
+		st.assume(smt.Sge(t, bv64(0)))
+		st.assume(smt.Slt(t, bv64(1<<40)))
+		if ex.lastClock != nil {
+			st.assume(smt.Sge(t, ex.lastClock))
+		}
+		ex.lastClock = t
+		zs := z.(*StructV)
+		f := append([]Value(nil), zs.F...)
+		f[1] = t
+		return &StructV{F: f}
+	}
+	S["(time.Time).Add"] = func(ex *Exec, st *State, site ssa.Instruction, fn *ssa.Function, args []Value) Value {
+		if !ex.Flags["clock"] {
+			return ex.zeroResult(fn)
+		}
+		zs := args[0].(*StructV)
+		f := append([]Value(nil), zs.F...)
+		f[1] = smt.Add(zs.F[1].(*smt.Term), args[1].(*smt.Term))
+		return &StructV{F: f}
+	}
 	S["(time.Time).After"] = func(ex *Exec, st *State, site ssa.Instruction, fn *ssa.Function, args []Value) Value {
+		if ex.Flags["clock"] {
+			return smt.Sgt(args[0].(*StructV).F[1].(*smt.Term), args[1].(*StructV).F[1].(*smt.Term))
+		}
 		// deadlines of seconds never expire within the few steps of a bounded run
 		return smt.False
 	}
@@ -604,6 +664,10 @@ func sortStrings(a []string) {
 
 func registerTomlStubs(ex *Exec) {
 	S := ex.Stubs
+	// text rendering of a MIDI message for a debug log line: content irrelevant
+	S["(gitlab.com/gomidi/midi/v2.Message).String"] = func(ex *Exec, st *State, site ssa.Instruction, fn *ssa.Function, args []Value) Value {
+		return ConcreteStr("<midi message>")
+	}
 	ex.GlobalInit["github.com/holoplot/go-evdev.KEYFromString"] = tableInit(evdevKeys)
 	ex.GlobalInit["github.com/holoplot/go-evdev.ABSFromString"] = tableInit(evdevAbs)
 	S["bytes.NewReader"] = func(ex *Exec, st *State, site ssa.Instruction, fn *ssa.Function, args []Value) Value {
@@ -844,6 +908,7 @@ func (ex *Exec) uf(name string, args []Value, nres int) []Value {
 
 func registerLedStubs(ex *Exec) {
 	S := ex.Stubs
+	var ledUpdate func(ex *Exec, st *State, site ssa.Instruction, cv Value) Value
 	// colour-space functions: evaluated with the real library on concrete arguments, uninterpreted otherwise
 	concF := func(vs []Value) ([]float64, bool) {
 		out := make([]float64, len(vs))
@@ -912,6 +977,11 @@ func registerLedStubs(ex *Exec) {
 		return &TupleV{E: []Value{dev, bv64(0), Nil}}
 	}
 	S["(*github.com/realbucksavage/openrgb-go.Client).UpdateLEDs"] = func(ex *Exec, st *State, site ssa.Instruction, fn *ssa.Function, args []Value) Value {
+		return ex.withChoice(st, args[2], func(st *State, cv Value) Value {
+			return ledUpdate(ex, st, site, cv)
+		})
+	}
+	ledUpdate = func(ex *Exec, st *State, site ssa.Instruction, cv Value) Value {
 		// record the frame in the harness's capture {N int; Frames [4][]Color}; end the loop after the first frame
 		cp := ex.LedCapture.(*PtrV)
 		cap := ex.load(st, site, cp).(*StructV)
@@ -919,18 +989,26 @@ func registerLedStubs(ex *Exec) {
 		if !n.IsConst() {
 			panic(unsupported("LED capture with a symbolic frame count"))
 		}
-		colors := args[2].(*SliceV)
+		colors := cv.(*SliceV)
 		el := ex.sliceElems(st, colors)
 		id := ex.newObj(st, &ArrayV{E: append([]Value(nil), el...)})
 		snap := &SliceV{Obj: id, Len: colors.Len, Cap: len(el), MaxLen: len(el)}
-		frames := cap.F[1].(*ArrayV)
-		e := append([]Value(nil), frames.E...)
+		frs := cap.F[1].(*ArrayV)
+		e := append([]Value(nil), frs.E...)
 		if int(n.V) < len(e) {
 			e[n.V] = snap
 		}
 		st.heap[cp.Obj] = ex.setPath(ex.get(st, cp.Obj), cp.Path, &StructV{F: []Value{bv64(int64(n.V + 1)), &ArrayV{E: e}, snap}})
-		if n.V == 0 && ex.LedCancel != nil {
+		frames := 1
+		if v, ok := ex.Params["FRAMES"]; ok && v > 0 {
+			frames = v
+		}
+		if int(n.V)+1 == frames && ex.LedCancel != nil {
 			ex.applyFuncValue(st, site, ex.LedCancel, nil, 1)
+		}
+		if ex.Flags["led.fail"] {
+			// the server or its connection may have gone away: any update may fail
+			return mergeV(ex.freshBool("led_update_fails"), Value(&IfaceV{T: nil, V: ex.newOpaque("error")}), Value(Nil))
 		}
 		return Nil
 	}
